@@ -118,13 +118,14 @@ func runHarness(c *vlib.Check, prop string, t *Totals, name string, bound int, q
 	t.Outcomes += len(r.Stats.Outcomes)
 	t.LastMaxSteps = int64(r.Stats.MaxSteps)
 	if quiet {
-		q := t.quietAgg[name]
+		qk := fmt.Sprintf("%s@%d", name, bound)
+		q := t.quietAgg[qk]
 		if q == nil {
 			q = map[string]interface{}{"harness": name, "param": h.Param, "cost_model": r.Cost, "bound": r.Bound, "fault_positions": 0, "schedules": int64(0), "scheduling_points": int64(0), "violating_schedules": int64(0), "distinct_outcomes": 0}
 			if t.quietAgg == nil {
 				t.quietAgg = map[string]map[string]interface{}{}
 			}
-			t.quietAgg[name] = q
+			t.quietAgg[qk] = q
 			t.Explore = append(t.Explore, q)
 		}
 		q["fault_positions"] = q["fault_positions"].(int) + 1
@@ -171,7 +172,7 @@ func RunArgs(c *vlib.Check, prop string, t *Totals, name string, args, bound int
 		h.Arg = a
 		RunHarnessQuiet(c, prop, t, name, bound, generic...)
 	}
-	if q := t.quietAgg[name]; q != nil {
+	if q := t.quietAgg[fmt.Sprintf("%s@%d", name, bound)]; q != nil {
 		fmt.Printf("explore %-40s %v bound=%d args=%d schedules=%d points=%d outcomes=%d viol=%d\n", name, q["cost_model"], bound, args, q["schedules"], q["scheduling_points"], q["distinct_outcomes"], q["violating_schedules"])
 	}
 }
